@@ -553,6 +553,8 @@ def silent0 : Stmt → Bool := silentWith fun _ => false
 def silent1 (p : Program) : Stmt → Bool := silentWith (calleeSilent p silent0)
 /-- calls followed two levels -/
 def silent2 (p : Program) : Stmt → Bool := silentWith (calleeSilent p (silent1 p))
+/-- calls followed three levels -/
+def silent3 (p : Program) : Stmt → Bool := silentWith (calleeSilent p (silent2 p))
 
 /-- `if <atom a> { nestedView++; defer nestedView-- … }` -/
 def isBracket (a : Nat) : Stmt → Bool
@@ -563,7 +565,7 @@ def isBracket (a : Nat) : Stmt → Bool
 /-- Nothing is emitted before the view bracket: `s` is a sequence of silent statements followed by the bracket
 (followed by anything). -/
 def bracketFirst (p : Program) (a : Nat) : Stmt → Bool
-  | .seq x y => isBracket a x || (silent2 p x && bracketFirst p a y)
+  | .seq x y => isBracket a x || (silent3 p x && bracketFirst p a y)
   | s => isBracket a s
 
 /-- Index of an atom by its text. -/
